@@ -428,6 +428,15 @@ func runOracleMachine(c omCase, which string, rec *ev.Recorder) *Failure {
 			if r := f.RunMsg(sctx, &crosschaintypes.MsgUpdateChainOracles{ChainName: ch, Authority: gov, Oracles: list}); !r.OK() {
 				break
 			}
+			// the unbonding period passes (real staking end blocker), only then can the stake be withdrawn
+			if ut, err := f.App.StakingKeeper.UnbondingTime(sctx); err == nil {
+				height++
+				sctx = sctx.WithBlockHeight(height).WithBlockTime(sctx.BlockTime().Add(ut + time.Hour))
+				ctx = ctx.WithBlockHeight(height).WithBlockTime(sctx.BlockTime())
+				if _, err := f.App.StakingKeeper.BlockValidatorUpdates(sctx); err != nil {
+					return failf("harness", "staking end block: %v", err)
+				}
+			}
 			if r := f.RunMsg(sctx, &crosschaintypes.MsgUnbondedOracle{ChainName: ch, OracleAddress: keys[o].Oracle.Acc().String()}); !r.OK() {
 				delete(approved, o)
 				break
